@@ -13,3 +13,5 @@ func cacheSnapshot(c *oidc.Cache) (order, items, elems []string) { return nil, n
 func stopMetadataCleanup(t *oidc.TraefikOidc) bool { return false }
 
 func housekeeping(t *oidc.TraefikOidc) bool { return false }
+
+func endpointsOf(t *oidc.TraefikOidc) map[string]string { return nil }
